@@ -1400,6 +1400,9 @@ theorem Inv.target {s : State} (h : Inv s) : Inv (step s .target) := by
     · simp only [hk, ↓reduceIte]
       exact h.exitWith .killed (h.kill_src hk) _ (.inl rfl)
     · simp only [hk, Bool.false_eq_true, ↓reduceIte]
+      by_cases hstt : s.target.starting = true
+      · simp only [hstt, ↓reduceIte]; exact h
+      simp only [hstt, Bool.false_eq_true, ↓reduceIte]
       by_cases hps : s.target.stopping.isSome = true
       · simp only [hps, ↓reduceIte]; exact h
       · simp only [hps, Bool.false_eq_true, ↓reduceIte]
@@ -1499,6 +1502,32 @@ theorem Inv.dropHandle {s : State} (h : Inv s) (i : Nat) : Inv (step s (.dropHan
     mbox_ok := h.mbox_ok
     handled_ok := fun hd hh => handledOk_mono (s := s) (Ext.refl _) (h.handled_ok hd hh) }
 
+theorem Inv.startHold {s : State} (h : Inv s) : Inv (step s .startHold) :=
+  { tinv := h.tinv
+    closed_le := h.closed_le
+    exit_ok := by
+      intro rr te e
+      obtain ⟨a, b, c⟩ := h.exit_ok rr te e
+      exact ⟨a, b, reasonOk_mono (s := s) (Ext.refl _) id id c⟩
+    stop_src := fun rr e => (h.stop_src rr e).mono (Ext.refl _) id id
+    stopping_src := fun rr ts e => (h.stopping_src rr ts e).mono (Ext.refl _) id id
+    kill_src := fun e => (h.kill_src e).mono (Ext.refl _) id id
+    mbox_ok := h.mbox_ok
+    handled_ok := fun hd hh => handledOk_mono (s := s) (Ext.refl _) (h.handled_ok hd hh) }
+
+theorem Inv.started {s : State} (h : Inv s) : Inv (step s .started) :=
+  { tinv := h.tinv
+    closed_le := h.closed_le
+    exit_ok := by
+      intro rr te e
+      obtain ⟨a, b, c⟩ := h.exit_ok rr te e
+      exact ⟨a, b, reasonOk_mono (s := s) (Ext.refl _) id id c⟩
+    stop_src := fun rr e => (h.stop_src rr e).mono (Ext.refl _) id id
+    stopping_src := fun rr ts e => (h.stopping_src rr ts e).mono (Ext.refl _) id id
+    kill_src := fun e => (h.kill_src e).mono (Ext.refl _) id id
+    mbox_ok := h.mbox_ok
+    handled_ok := fun hd hh => handledOk_mono (s := s) (Ext.refl _) (h.handled_ok hd hh) }
+
 theorem Inv.fail {s : State} (h : Inv s) : Inv (step s .fail) := by
   have e : step s .fail = { s with target := s.target.poisonMsg } := rfl
   rw [e]
@@ -1534,6 +1563,8 @@ theorem Inv.step {s : State} (h : Inv s) (op : Op) : Inv (step s op) := by
   | psrelease => exact h.psrelease
   | dropHandle i => exact h.dropHandle i
   | fail => exact h.fail
+  | startHold => exact h.startHold
+  | started => exact h.started
 
 theorem Inv.steps {s : State} (h : Inv s) (ops : List Op) : Inv (steps s ops) := by
   induction ops generalizing s with
@@ -1806,6 +1837,8 @@ theorem calm_now {s : State} {op : Op} (hc : op.calm = true) : (step s op).now =
   | psrelease => rfl
   | dropHandle j => rfl
   | fail => rfl
+  | startHold => rfl
+  | started => rfl
 
 theorem calm_length {s : State} {op : Op} (hc : op.calm = true) :
     (step s op).timers.length = s.timers.length := by
@@ -1830,6 +1863,8 @@ theorem calm_length {s : State} {op : Op} (hc : op.calm = true) :
   | psrelease => rfl
   | dropHandle j => rfl
   | fail => rfl
+  | startHold => rfl
+  | started => rfl
 
 theorem QuietAt.fire {s : State} (_h : Inv s) (i : Nat) : QuietAt i (step s (.fire i)) := by
   intro σ hσ
@@ -1882,6 +1917,8 @@ theorem QuietAt.calm {s : State} {i : Nat} (h : Inv s) (hq : QuietAt i s) {op : 
   | psrelease => exact hq
   | dropHandle j => exact hq
   | fail => exact hq
+  | startHold => exact hq
+  | started => exact hq
 
 theorem QuietAt.create {s : State} {i : Nat} (hq : QuietAt i s) (hi : i < s.timers.length) (k : Kind) (p : Nat) :
     QuietAt i (step s (.create k p)) := by
@@ -2092,6 +2129,8 @@ theorem MInv.step {s : State} (hm : MInv s) (hi : Inv s) {op : Op} (hnt : ∀ d,
   | psrelease => exact ⟨hm.visits_le, hm.mt⟩
   | dropHandle j => exact ⟨hm.visits_le, hm.mt⟩
   | fail => exact ⟨hm.visits_le, hm.mt⟩
+  | startHold => exact ⟨hm.visits_le, hm.mt⟩
+  | started => exact ⟨hm.visits_le, hm.mt⟩
   | mark =>
     refine ⟨?_, ?_⟩
     · intro c hc
@@ -2327,6 +2366,18 @@ theorem BInv.mstep {s : State} (h : BInv s) (m : MOp) : BInv (mstep s m) := by
     · intro i _; exact .inl (h.quiet i)
   | psrelease =>
     have e : expand s .psrelease = [.psrelease, .target] ++ [.mark] := rfl
+    rw [e, steps_snoc]
+    apply BInv.of_calm h.inv h.minv
+    · intro op hop; simp at hop; rcases hop with rfl | rfl <;> rfl
+    · intro i _; exact .inl (h.quiet i)
+  | startHold =>
+    have e : expand s .startHold = [.startHold] ++ [.mark] := rfl
+    rw [e, steps_snoc]
+    apply BInv.of_calm h.inv h.minv
+    · intro op hop; simp at hop; subst hop; rfl
+    · intro i _; exact .inl (h.quiet i)
+  | started =>
+    have e : expand s .started = [.started, .target] ++ [.mark] := rfl
     rw [e, steps_snoc]
     apply BInv.of_calm h.inv h.minv
     · intro op hop; simp at hop; rcases hop with rfl | rfl <;> rfl
